@@ -121,6 +121,17 @@ CHECKS = {
              "lines, random to depth 4) is decided by the reference written from the property text, not by a theorem.",
         note=TRUST + "tokenizer and inline handlers are glue under the diff.",
         ref="DESIGN.md section 4 C02"),
+    "C01": dict(
+        technique="Coq well-formedness function evaluated on every returned tree + proofs about the string-merging primitive; totality by execution",
+        text="PARTIAL. Proved for all inputs: _parser_merge_str_children (modelled generically) leaves no adjacent or empty "
+             "strings, keeps nodes in order and keeps exactly the finalised run texts (c01_merge_*), and the model agrees with "
+             "the real function on generated child lists. Decided by execution: parse() returns, leaves parser_stack empty, and "
+             "the returned tree satisfies Model.Tree.wf - the ten-clause well-formedness predicate, written in Coq and evaluated "
+             "by vm_compute on every real tree - for token soups over a 110-atom alphabet, grammar documents, span mutations of "
+             "the repository's own test pages, nesting ladders to depth 100 and placeholder inputs, with and without "
+             "pre_expand/expand_all. The token handlers and the tokenizer are not modelled, so there is no totality theorem.",
+        note=TRUST + "tree serialiser and string abstraction (empty / contains placeholder) trusted.",
+        ref="DESIGN.md section 4 C01"),
 }
 
 NOT_YET = "check not built yet in this round (planned, see DESIGN.md section 8)"
